@@ -276,11 +276,15 @@ CHAIN = {
     'm0.py': ['from m5 import *\nfrom m1 import own1\nown0 = 0\n'],            # m5 does not exist at first
     'pk/__init__.py': ['from .inner import thing\nfrom . import inner\n', 'from .inner import thing, thing2\n'],
     'pk/inner.py': ['thing = 1\nthing2 = 2\n', 'thing = "s"\nthing2 = 2\nthing3 = 3\n'],
+    # a module that has nothing public at first, star-imported by m7
+    'm6.py': ['', '_private6 = 0\n', 'six = 6\n_private6 = 0\n'],
+    'm7.py': ['from m6 import *\nown7 = 7\n'],
 }
 CHAIN_REQUESTS = [
     ('m0.', 'import m0\nm0.', (2, 3)), ('m1.', 'import m1\nm1.', (2, 3)), ('m2.', 'import m2\nm2.', (2, 3)), ('m3.re3.', 'import m3\nm3.re3.', (2, 7)),
     ('m1.re3.', 'import m1\nm1.re3.', (2, 7)), ('pk.', 'import pk\npk.', (2, 3)), ('pk.inner.', 'import pk\npk.inner.', (2, 9)),
     ('star-names', 'from m1 import *\nown', (2, 3)), ('lint', 'from m1 import *\nprint(base, own1, re3)\n', None),
+    ('m4.', 'import m4\nm4.', (2, 3)), ('m6.', 'import m6\nm6.', (2, 3)), ('m7.', 'import m7\nm7.', (2, 3)), ('star-of-m7', 'from m7 import *\nprint(six, own7)\n', None),
     # requests that fail (the editor is in the middle of a line): the exception leaves the change-checking context as it does in the server
     ('unparsable-request', 'import m1\ndef f(:\n', (2, 5)), ('unparsable-lint', 'from m1 import *\nprint(base\n', None),
 ]
@@ -319,9 +323,9 @@ finally:
 
 
 @harness(['C09'], 'supp.project.Project / supp.module.SourceModule [request - edit - request histories against a fresh project]',
-         bounded='a project of 7 modules in 1 package (one star-importing a module that does not exist yet) with import, from-import, star-import and re-export edges (chain of length 4): every history '
-                 'request; edit; request  over 11 requests (2 of which fail inside the change-checking context) and 10 edits (rewrite of each module to each of its variants with a new mtime, touch), '
-                 'every history  failing request; request; edit; the same request, and 300 histories  request; edit; request; edit; request  drawn with a fixed seed')
+         bounded='a project of 9 modules in 1 package (one star-importing a module that does not exist yet, one a module that has nothing public at first) with import, from-import, star-import and re-export edges (chain of length 4): every history '
+                 'request; edit; request  over 15 requests (2 of which fail inside the change-checking context) and 12 edits (rewrite of each module to each of its variants with a new mtime, touch), '
+                 'every history  failing request; request; edit; the same request, the histories  request; edit M; look M up by name; request, and 300 histories  request; edit; request; edit; request  drawn with a fixed seed')
 def edit_histories(run):
     """BOUNDED stand-in for the claim of C09 itself: after any history of edits (each with a new modification time) interleaved with requests,
     a request inside check_changes() on the long-lived project returns what a fresh project returns on the same disk state - also when the
@@ -345,6 +349,13 @@ def edit_histories(run):
         hists = [[('request', q1), e, ('request', q2)] for q1 in CHAIN_REQUESTS for e in edits for q2 in CHAIN_REQUESTS]
         # a failed request; a request that loads the modules; an edit; the same request again
         hists += [[('request', f), ('request', q), e, ('request', q)] for f in CHAIN_REQUESTS[-2:] for q in CHAIN_REQUESTS[:-2] for e in edits]
+        # the edited module is looked up by name first, then reached through its importers:  request; edit M; `import M; M.`; request
+        direct = {'m4.py': 'm4.', 'm6.py': 'm6.', 'm2.py': 'm2.', 'm1.py': 'm1.', 'pk/__init__.py': 'pk.'}
+        by_label = {q[0]: q for q in CHAIN_REQUESTS}
+        for e in edits:
+            if e[1] in direct:
+                through = [q for q in CHAIN_REQUESTS[:-2] if q[0] != direct[e[1]]]
+                hists += [[('request', q1), e, ('request', by_label[direct[e[1]]]), ('request', q3)] for q1 in through[::2] for q3 in through]
         rnd = random.Random(20260927)
         for _ in range(300):
             hists.append([('request', rnd.choice(CHAIN_REQUESTS)), rnd.choice(edits), ('request', rnd.choice(CHAIN_REQUESTS)), rnd.choice(edits),
